@@ -88,3 +88,15 @@ Example C13_descriptor_example :
   | RErr _ => False
   end.
 Proof. vm_compute. reflexivity. Qed.
+
+(* a nested structure type without a descriptor is elaborated as a position no value can occupy (Fields.elab_struct): whatever
+   arrives there fails to decode, and a structure value of a type without a descriptor - or nil - fails to encode *)
+Theorem C13_position_without_descriptor : forall T h ki a st cur tag,
+  dec_value (SDyn h ki DNil) a st cur = Err /\
+  (forall ty vs, T ty = None -> enc_value T (SDyn h ki DNil) tag (VStruct ty vs) = None) /\
+  enc_value T (SDyn h ki DNil) tag VNil = None.
+Proof.
+  intros. split; [reflexivity|]. split; [|reflexivity].
+  intros ty vs H. cbn. rewrite H. reflexivity.
+Qed.
+Print Assumptions C13_position_without_descriptor.
